@@ -703,3 +703,67 @@ def _kept(it, before, hook, after):
 R.spec_funcs["kept"] = _kept
 NATIVE = dict(globals().get("NATIVE", {}))
 NATIVE.setdefault("helpers", {}).update({"deep_lists": lambda d: {k: list(v) for k, v in d.items()}, "kept": lambda before, hook, after: [h for h in before if h is not hook] == after})
+
+
+# ------------------------------------------------------------------------------------------------- APIOperation.as_strategy: the case-level hooks of all three scopes are applied to the case strategy
+# `_apply_hooks` (a closure) folds the four kinds of case hooks of ONE dispatcher over the strategy; as_strategy chains it over the global, the schema's and the test's
+# dispatcher. One fold function F(k, i): the strategy after the first i hooks of the k-th hook list that was asked for (k = 0..11).
+SCH = "schemathesis.schemas:"
+R.uf("fold", ["int", "int"], "Strategy")
+R.module_values[SCH.rstrip(":") + ":GLOBAL_HOOK_DISPATCHER"] = _GLOBAL
+_gabn.effects = {**_gabn.effects, "asked_of": "ghost('asked_of') + [self]"}
+
+
+def _case_fold_inv(apply_text):
+    return {"index": "i", "modifies": {"_strategy": Opq("Strategy"), "hook": Opq("Any")},
+            # at loop entry: which list this is (the one asked for last) and the strategy that goes in
+            "snapshot": {"k": "length(ghost('seqs')) - 1", "inputs": "ghost('inputs') + [_strategy]"},
+            "assume": ["fold(ghost('k'), 0) == ghost('inputs')[ghost('k')]",
+                       "forall(0, length(ghost('seqs')[ghost('k')]), lambda j: fold(ghost('k'), j + 1) == " + apply_text.format(s="fold(ghost('k'), j)", h="elem(ghost('seqs')[ghost('k')], j)") + ")"],
+            "clauses": ["_strategy == fold(ghost('k'), i)"]}
+
+
+R.contract(
+    SCH + "APIOperation.as_strategy.<locals>._apply_hooks",
+    args={"dispatcher": Opq("Dispatcher"), "_strategy": Opq("Strategy")},
+    inline=True,
+    invariants={0: _case_fold_inv("hook_call({h}, ghost('context'), {s})"), 1: _case_fold_inv("st_filter({s}, {h}, ghost('context'))"),
+                2: _case_fold_inv("st_map({s}, {h}, ghost('context'))"), 3: _case_fold_inv("st_flatmap({s}, {h}, ghost('context'))")},
+    note="verified inline as part of APIOperation.as_strategy (loop invariants: the four folds)",
+)
+
+
+def _new_hook_context(it, env):
+    from pyvc.values import VObj
+
+    ctx = it.ghost.get("context")
+    if ctx is None:
+        ctx = it.ghost["context"] = fresh_opaque(it, "ObjRef")
+    it.ghost["contexts_for"] = it.ghost.get("contexts_for", []) + [env["operation"]]
+    return ctx
+
+
+R.contract(H + "HookContext", abstract_only=True, args={"operation": Opq("Any")}, returns=_new_hook_context,
+           note="dataclass constructor: HookContext(operation) - the contexts built for one operation are interchangeable (same field values); modelled as one object")
+R.nominal_methods["spec:CaseStrategySchema"] = {"get_case_strategy": lambda it, obj, a, k: it.ghost.__setitem__("case_strategy", fresh_opaque(it, "Strategy")) or it.ghost["case_strategy"]}
+_NAMES4 = ["before_generate_case", "filter_case", "map_case", "flatmap_case"]
+R.spec_funcs["NAMES4"] = lambda it: list(_NAMES4)
+R.contract(
+    SCH + "APIOperation.as_strategy",
+    prop="C19",
+    args={"self": Obj(SCH + "APIOperation", schema=Obj("spec:CaseStrategySchema", hooks=Opq("Dispatcher"))), "hooks": OneOf(NoneT, Opq("Dispatcher")), "auth_storage": NoneT,
+          "generation_mode": Opq("Mode"), "generation_config": NoneT, "kwargs": Const({})},
+    ghost={"seqs": [], "names": [], "asked_of": [], "inputs": [], "context": None, "contexts_for": [], "case_strategy": None, "k": -1},
+    raises=[],
+    ensures={
+        # hooks of every scope apply - global first, then the schema's, then the test's own - and of every kind, in the fixed kind order
+        "every_scope_is_asked_for_every_kind_of_case_hook": "ghost('asked_of') == [GLOBAL()] * 4 + [self.schema.hooks] * 4 + ([hooks] * 4 if hooks is not None else []) and "
+                                                            "ghost('names') == NAMES4() * (3 if hooks is not None else 2)",
+        # ... each hook list is folded over what the previous one produced (independently of the hooks registered before / after it), starting from the operation's case strategy
+        "each_hook_list_continues_from_the_previous_result": "length(ghost('inputs')) == length(ghost('seqs')) and ghost('inputs')[0] == ghost('case_strategy') and "
+                                                             "all(ghost('inputs')[k] == fold(k - 1, length(ghost('seqs')[k - 1])) for k in range(1, length(ghost('seqs'))))",
+        "the_result_is_the_last_fold": "result == fold(length(ghost('seqs')) - 1, length(ghost('seqs')[-1]))",
+        "hooks_see_this_operation": "all(op is self for op in ghost('contexts_for'))",
+    },
+    replayable=False,
+)
